@@ -98,6 +98,11 @@ fn opq_position_str(v: &Vec<String>, x: &str) -> (r: Option<usize>)
 fn opq_position_string(v: &Vec<String>, x: &String) -> (r: Option<usize>)
     ensures match r { Some(k) => k < v@.len() && k < usize::MAX && k == first_from(strs(v@), x@, 0), None => first_from(strs(v@), x@, 0) == v@.len() },
 { unimplemented!() }
+/// `v.iter().position(|arg| !arg.starts_with('-'))`: the FIRST index of a token not starting with '-'
+#[verifier::external_body]
+fn opq_position_nondash(v: &Vec<String>) -> (r: Option<usize>)
+    ensures match r { Some(k) => k < v@.len() && k == first_nd(strs(v@), 0), None => first_nd(strs(v@), 0) == v@.len() },
+{ unimplemented!() }
 /// `v.iter().enumerate()`, collected
 #[verifier::external_body]
 fn opq_enumerated<'a>(v: &'a Vec<String>) -> (r: Vec<(usize, &'a String)>)
@@ -280,10 +285,6 @@ pub open spec fn pff_scan(a: Seq<Seq<char>>, i: int) -> Option<Seq<char>>
 pub open spec fn dev_tree_after_sep(a: Seq<Seq<char>>) -> bool { first_nd(a, 0) < a.len() && first_nd(a, 0) > sep_at(a) }
 /// DEVIATION reset-2 (`git reset --pathspec-from-file <file> [<tree-ish>]`): the first token not starting with '-' is the VALUE of the option
 pub open spec fn dev_tree_pff_value(a: Seq<Seq<char>>) -> bool { 1 <= first_nd(a, 0) < a.len() && a[first_nd(a, 0) - 1] == PFF() }
-/// DEVIATION reset-3 (`git reset <rev> --`): one positional, then `--` with nothing after it that could be a path, no mode option
-pub open spec fn dev_paths_lone_rev(a: Seq<Seq<char>>) -> bool {
-    sep_at(a) < a.len() && ndf(a, 0, sep_at(a)).len() == 1 && ndf(a, sep_at(a) + 1, a.len() as int).len() == 0 && !reset_mode(a)
-}
 /// DEVIATION reset-4 (`git reset -- a -- b`): a second `--` is a pathspec for git
 pub open spec fn dev_second_sep(a: Seq<Seq<char>>) -> bool { after_sep(a).contains("--"@) }
 
@@ -487,14 +488,15 @@ fn extract_tree_ish(parsed_args: &ParsedGitInvocation) -> (r_: String)
     "HEAD".to_string()
 }
 //#end
-//#item file=src/commands/hooks/reset_hooks.rs kind=fn name=extract_pathspecs opaque='[{"expr": "parsed_args .command_args .iter() .filter(|arg| !arg.starts_with(\u0027-\u0027) && *arg != \"--\") .count()", "call": "opq_count_positional(&parsed_args.command_args)"}, {"expr": "parsed_args.command_args.contains(&\"--\".to_string())", "call": "opq_contains_str(&parsed_args.command_args, \"--\")"}, {"stmt_from": "for arg in &parsed_args.command_args {", "call": "opq_reset_scan(&parsed_args.command_args, skip_first_positional, &mut pathspecs);"}]'
+//#item file=src/commands/hooks/reset_hooks.rs kind=fn name=extract_pathspecs opaque='[{"expr": "parsed_args .command_args .iter() .filter(|arg| !arg.starts_with(\u0027-\u0027) && *arg != \"--\") .count()", "call": "opq_count_positional(&parsed_args.command_args)"}, {"expr": "parsed_args.command_args.iter().position(|arg| arg == \"--\")", "call": "opq_position_str(&parsed_args.command_args, \"--\")"}, {"expr": "parsed_args .command_args .iter() .position(|arg| !arg.starts_with(\u0027-\u0027))", "call": "opq_position_nondash(&parsed_args.command_args)"}, {"stmt_from": "for arg in &parsed_args.command_args {", "call": "opq_reset_scan(&parsed_args.command_args, skip_first_positional, &mut pathspecs);"}]'
 fn extract_pathspecs(parsed_args: &ParsedGitInvocation) -> (r_: Result<Vec<String>, std::io::Error>)
 //@     ensures
 //@         // with --pathspec-from-file the pathspecs are whatever the file holds (I/O, uninterpreted)
 //@         pff_scan(strs(parsed_args.command_args@), 0) is Some ==> r_ == read_spec(pff_scan(strs(parsed_args.command_args@), 0).unwrap(), strs(parsed_args.command_args@).contains("--pathspec-file-nul"@)),
 //@         // otherwise: the positionals after the tree-ish, then everything after `--` verbatim
 //@         pff_scan(strs(parsed_args.command_args@), 0) is None ==> r_ is Ok,
-//@         pff_scan(strs(parsed_args.command_args@), 0) is None && !dev_paths_lone_rev(strs(parsed_args.command_args@)) && !dev_second_sep(strs(parsed_args.command_args@))
+//@         // (in particular `git reset [<opts>] <tree-ish> --` has NO pathspec: theorem_lone_rev_has_no_pathspec)
+//@         pff_scan(strs(parsed_args.command_args@), 0) is None && !dev_second_sep(strs(parsed_args.command_args@))
 //@             ==> strs(r_.unwrap()@) == reset_paths(strs(parsed_args.command_args@)),
 {
     //@ let ghost a = strs(parsed_args.command_args@);
@@ -514,39 +516,56 @@ fn extract_pathspecs(parsed_args: &ParsedGitInvocation) -> (r_: Result<Vec<Strin
     // Skip if:
     // 1. There's a mode flag (--hard, --soft, etc.) - first pos is always tree-ish
     // 2. There are 2+ positional args - first is tree-ish, rest are pathspecs
-    // 3. There's exactly 1 positional arg and NO separator - it's a tree-ish, not a pathspec
+    // 3. There's exactly 1 positional arg and it is not behind a `--` separator - it's a
+    //    tree-ish, not a pathspec (`git reset <commit> --` is a plain reset of HEAD)
+    let separator_pos = opq_position_str(&parsed_args.command_args, "--");
+    let first_positional_pos = opq_position_nondash(&parsed_args.command_args);
+    let single_positional_is_tree_ish = match (first_positional_pos, separator_pos) {
+        (Some(positional), Some(separator)) => positional < separator,
+        _ => true,
+    };
     let skip_first_positional = has_reset_mode_flag(parsed_args)
         || total_positional_args >= 2
-        || (total_positional_args == 1 && !opq_contains_str(&parsed_args.command_args, "--"));
+        || (total_positional_args == 1 && single_positional_is_tree_ish);
 
     let mut positional_count = 0;
-    //@ proof { if !dev_paths_lone_rev(a) { lemma_paths(a, skip_first_positional); } }
+    //@ proof { lemma_paths(a, skip_first_positional); }
     opq_reset_scan(&parsed_args.command_args, skip_first_positional, &mut pathspecs);
 
     Ok(pathspecs)
 }
 //#end
-/// the decision "is the first positional the tree-ish" of extract_pathspecs is git's outside reset-3
+/// the decision "is the first positional the tree-ish" of extract_pathspecs is git's: whenever there is a positional before
+/// `--` (or no `--`), the first one is the tree-ish
 proof fn lemma_paths(a: Seq<Seq<char>>, skip: bool)
     requires
         pff_scan(a, 0) is None,
-        skip == (reset_mode(a) || ndf(a, 0, a.len() as int).len() >= 2 || (ndf(a, 0, a.len() as int).len() == 1 && !a.contains("--"@))),
-        !dev_paths_lone_rev(a),
+        // all the decision has to guarantee: a positional in front of the separator (or without one) is dropped as the tree-ish
+        ndf(a, 0, a.len() as int).len() >= 2 ==> skip,
+        ndf(a, 0, a.len() as int).len() == 1 && !(first_nd(a, 0) < a.len() && sep_at(a) < a.len() && !(first_nd(a, 0) < sep_at(a))) ==> skip,
     ensures
         reset_paths(a) == ({ let b = ndf(a, 0, sep_at(a)); if skip && b.len() > 0 { b.skip(1) } else { b } }) + after_sep(a),
 {
     reveal_strlit("--");
-    let s = sep_at(a); let n = a.len() as int;
-    lemma_first_from(a, "--"@, 0); lemma_first_from_contains(a, "--"@);
+    let s = sep_at(a); let n = a.len() as int; let k = first_nd(a, 0);
+    lemma_first_from(a, "--"@, 0); lemma_first_nd(a, 0);
     lemma_pff_none(a, 0);
     lemma_positionals_ndf(a, 0, s);
     let b = ndf(a, 0, s);
     lemma_ndf_split(a, 0, s, n);
-    if s < n { assert(dash(a[s])); assert(ndf(a, s, n) == ndf(a, s + 1, n)); } else { assert(ndf(a, s, n).len() == 0); }
     if b.len() > 0 && !skip {
+        if k >= s { lemma_ndf_first(a, 0, s, s); }
+        assert(k < s);
         assert(ndf(a, 0, n).len() == b.len() + ndf(a, s, n).len());
         assert(false);
     }
+}
+/// C02 (the repaired reset-3): `git reset [<opts>] <tree-ish> --` names a commit and NO pathspec - it is a reset of HEAD
+proof fn theorem_lone_rev_has_no_pathspec(a: Seq<Seq<char>>)
+    requires pff_scan(a, 0) is None, sep_at(a) < a.len(), ndf(a, 0, sep_at(a)).len() == 1, after_sep(a).len() == 0,
+    ensures reset_paths(a).len() == 0, reset_tree_ish(a) == ndf(a, 0, sep_at(a))[0],
+{
+    lemma_first_from(a, "--"@, 0); lemma_pff_none(a, 0); lemma_positionals_ndf(a, 0, sep_at(a));
 }
 
 // ================================================================== git stash push / save
